@@ -212,6 +212,9 @@ class SuperSpeedStreamInEndpoint(Elaboratable):
         ack_received      = handshakes_in.ack_received & is_to_us
         in_token_received = ack_received & is_in_token
 
+        # Any transaction packets we generate (NRDY / ERDY) are for our own endpoint.
+        m.d.comb += handshakes_out.endpoint_number.eq(self._endpoint_number)
+
         with m.FSM(domain='ss'):
 
             # WAIT_FOR_DATA -- We don't yet have a full packet to transmit, so  we'll capture data
